@@ -44,6 +44,7 @@ type hist struct {
 	Try    []string `json:"try"`
 	VH     []int    `json:"vh"`
 	Reg    []string `json:"reg"`
+	Ren    []string `json:"ren"` // registered servers re-registered through the API as "S2" for "s2"
 	Fails  []string `json:"fails"`
 	Log    []string `json:"log"` // the model's prediction (informational: model drift)
 	St     string   `json:"st"`
@@ -264,7 +265,7 @@ func TestReplay(t *testing.T) {
 			}
 			if len(samples) < 3 && n >= 2 {
 				samples = append(samples, map[string]any{"vhost": cpsString(h.VH), "forced_key": cpsString(h.Forced.Key),
-					"forced": h.Forced.List, "try": h.Try, "registered": h.Reg, "fails": h.Fails, "events": recs[1:]})
+					"forced": h.Forced.List, "try": h.Try, "registered": h.Reg, "renamed": h.Ren, "fails": h.Fails, "events": recs[1:]})
 			}
 		}()
 	}
@@ -334,6 +335,17 @@ func replay(t *testing.T, hi int, h hist, seed int64, backends map[string]*rig.B
 			}
 		}
 	}
+	for _, s := range h.Ren {
+		rs := r.P.Server(s)
+		if rs == nil || !r.P.Unregister(rs.ServerInfo()) {
+			t.Errorf("cannot unregister %s for renaming", s)
+			return nil, "rename"
+		}
+		if _, err := r.P.Register(proxy.NewServerInfo(strings.ToUpper(s), rs.ServerInfo().Addr())); err != nil {
+			t.Errorf("register %s: %v", strings.ToUpper(s), err)
+			return nil, "rename"
+		}
+	}
 	runsMu.Lock()
 	runs[name] = ru
 	runsMu.Unlock()
@@ -341,7 +353,7 @@ func replay(t *testing.T, hi int, h hist, seed int64, backends map[string]*rig.B
 
 	port := []int{25565, 1, 65535}[hi%3]
 	reset := tracefmt.Rec{"ev": "reset", "hist": hi, "forced": map[string]any{"has": h.Forced.Has, "key": ints(h.Forced.Key), "list": strs(h.Forced.List)},
-		"try": strs(h.Try), "vh": ints(h.VH), "reg": strs(h.Reg), "port": port,
+		"try": strs(h.Try), "vh": ints(h.VH), "reg": strs(h.Reg), "renamed": strs(h.Ren), "port": port,
 		"loaded_forced_keys": keysOf(loaded.Config.ForcedHosts)}
 	c, err := r.Dial()
 	if err != nil {
@@ -403,7 +415,13 @@ func replay(t *testing.T, hi int, h hist, seed int64, backends map[string]*rig.B
 			end["state"] = "connected"
 			if pl := r.P.PlayerByName(name); pl != nil {
 				if cs := pl.CurrentServer(); cs != nil {
+					// identify the server by its address (names are case-insensitive, it may be registered as "S2")
 					end["server"] = cs.Server().ServerInfo().Name()
+					for _, s := range order {
+						if backends[s].Addr() == cs.Server().ServerInfo().Addr().String() {
+							end["server"] = s
+						}
+					}
 				}
 			}
 		}
